@@ -11,6 +11,7 @@ import re
 from paths import refine_cuts, region_uncovered
 from common import short, field_calls
 import guards
+from common import slice_locals
 import k11
 
 EXPLANATION = ("Table, guard and provenance rules: the SubstreamKeepAlive constant at each register_protocol call site of Litep2p::new is "
@@ -53,21 +54,10 @@ def r09_1(ctx, fx):
 
 
 def keepalive_eq_edges(fn):
-    """[(switch, true_label, false_label)] of tests `x == SubstreamKeepAlive::Yes` with x rooted in a keep-alive field"""
-    out = []
-    for c in fn.calls(r"::eq$"):
-        if not any("SubstreamKeepAlive" in a for a in c.f.get("args", [])):
-            continue
-        shapes = set()
-        for a in c.args:
-            pr = fn.origin(a)
-            shapes |= fn.shape(a)
-        const_yes = any(fn.roots(a) and all(r[0] == "const" and r[1].endswith("SubstreamKeepAlive::Yes") for r in fn.roots(a)) for a in c.args)
-        if not const_yes:
-            continue
-        for t in fn.bool_tests(c.dest[0]):
-            out.append(t)
-    return out
+    """[(switch, label on Yes, label otherwise)] of the tests whether a keep-alive flag is SubstreamKeepAlive::Yes (`== Yes`, `matches!`,
+    `match`)"""
+    from common import enum_tests
+    return enum_tests(fn, r"SubstreamKeepAlive", "Yes")
 
 
 def r09_2(ctx, fx):
@@ -122,6 +112,16 @@ def r09_2(ctx, fx):
                 if rs and all(r[0] == "const" and r[1].endswith("SubstreamKeepAlive::Yes") for r in rs):
                     ok = True
         thens = fn.calls(r"bool::then$")
+        if not ok and len(thens) == 1:
+            # `matches!(self, Yes).then(f)`: the bool is the constant true only on the Yes edge of a test of self
+            tests = keepalive_eq_edges(fn)
+            p = thens[0].args[0].get("m") or thens[0].args[0].get("c")
+            for l in (fn.copies_of(p[0]) | {p[0]}) if p else ():
+                ds = fn.defs().get(l, [])
+                trues = [n for n, k, pl in ds if k == "assign" and pl["rv"]["r"] == "use" and "k" in pl["rv"]["o"] and fn.const_value(pl["rv"]["o"]) == 1]
+                allc = ds and all(k == "assign" and pl["rv"]["r"] == "use" and "k" in pl["rv"]["o"] for n, k, pl in ds)
+                if allc and trues and tests and all(any(fn.only_via(n, sw, [t]) for sw, t, f in tests) for n in trues):
+                    ok = True
         ctx.ob("R09.2", "SubstreamKeepAlive::then/is-(self==Yes).then(f)", ok and len(thens) == 1, site=fn.site(fn.entry), cfg=fx.cfg)
     else:
         ctx.anchor("R09.2", "SubstreamKeepAlive::then", 0, 1, cfg=fx.cfg)
@@ -140,6 +140,16 @@ def r09_2(ctx, fx):
                     permit_arg = a
             pr = fn.producer(permit_arg)
             ok = pr is not None and pr.matches(r"SubstreamKeepAlive::then$") and ".keep_alive" in fn.recv(pr)
+            if not ok:
+                # spelled out: `match keep_alive { Yes => Some(permit.clone()), No => None }`
+                tests = [t for t in keepalive_eq_edges(fn)]
+                pl_ = permit_arg.get("m") or permit_arg.get("c")
+                somes, nones = [], []
+                for l in slice_locals(fn, permit_arg) if pl_ else ():
+                    for n_, k_, p_ in fn.defs().get(l, []):
+                        if k_ == "assign" and p_["rv"]["r"] == "agg" and p_["rv"].get("var") in ("Some", "None"):
+                            (somes if p_["rv"]["var"] == "Some" else nones).append(n_)
+                ok = bool(tests) and bool(somes) and bool(nones) and all(any(fn.only_via(n_, sw, [t]) for sw, t, f in tests) for n_ in somes)
             ctx.ob("R09.2", "%s/substream-lifetime-permit=keep_alive.then(..)" % short(key), ok, site=fn.site(c.node), cfg=fx.cfg,
                    detail="producer of the permit argument: %s recv %s" % (pr.name if pr else None, fn.recv(pr) if pr else None))
     ctx.anchor("R09.2", "transport Substream::new sites", n, 1 if fx.cfg == "default" else 3, cfg=fx.cfg)
@@ -219,7 +229,8 @@ def r09_6(ctx, fx):
             n += 1
             ok = False
             for e, who in eqs:
-                if who != fn.recv(a):
+                core = lambda x: re.sub(r"^&+|\*+$", "", x)     # the same place, whatever the depth of (re)borrows in a match guard
+                if core(who) != core(fn.recv(a)):
                     continue
                 for sw, t, f in fn.bool_tests(e.dest[0]):
                     if fn.only_via(a.node, sw, [t]):
